@@ -2,7 +2,6 @@ package rules
 
 import (
 	"go/ast"
-	"go/constant"
 	"go/token"
 	"go/types"
 	"sort"
@@ -354,52 +353,53 @@ func runC20(p *eng.Prog, r *eng.Report, tier string) {
 	// ---- C20.7 the form type is readable: Data.Get yields a string for hidden fields ------
 	// (AppendHash reads FORM_TYPE with GetString; any other dynamic type gives "")
 	if gf := c.fn("C20.7", "form", "(*Data).Get"); gf != nil {
+		// assume the field's type is hidden (or empty): the edges that contradict
+		// it are cut; every return that stays reachable in the region that
+		// dispatches on the type yields a string. (Independent of whether the
+		// dispatch is written as a switch or as an if chain.)
 		nr := 0
-		gf.WalkBody(func(nd ast.Node) bool {
-			sw, ok := nd.(*ast.SwitchStmt)
-			if !ok || sw.Tag == nil || !strings.HasSuffix(gf.Norm(sw.Tag, nil), ".typ") {
-				return true
-			}
-			clauses := sw.Body.List
-			for i, st := range clauses {
-				cc := st.(*ast.CaseClause)
-				covers := false
-				for _, e := range cc.List {
-					if cv := gf.ConstVal(e); cv != nil && cv.Kind() == constant.String {
-						if v := constant.StringVal(cv); v == "hidden" || v == "" {
-							covers = true
-						}
-					}
+		g := gf.Graph()
+		var others []string
+		if pk := c.p.Pkg("form"); pk != nil {
+			for _, nm := range pk.Types.Scope().Names() {
+				if k, ok := pk.Types.Scope().Lookup(nm).(*types.Const); ok && eng.TypeStr(k.Type()) == "form.FieldType" {
+					others = append(others, "form."+nm)
 				}
-				if !covers {
+			}
+		}
+		for _, hid := range []string{"form.TypeHidden", "\"\""} {
+			assume := []string{"eq(*.typ," + hid + ")"}
+			for _, o := range others {
+				if o != hid {
+					assume = append(assume, "!eq(*.typ,"+o+")")
+				}
+			}
+			if hid != "\"\"" {
+				assume = append(assume, "!eq(*.typ,\"\")")
+			}
+			cut := g.CutFor(assume...)
+			for _, rs := range g.Returns {
+				if len(rs.Results) != 2 {
 					continue
 				}
-				// the clause and the clauses it falls through to
-				for j := i; j < len(clauses); j++ {
-					body := clauses[j].(*ast.CaseClause).Body
-					for _, bs := range body {
-						ast.Inspect(bs, func(x ast.Node) bool {
-							if _, isLit := x.(*ast.FuncLit); isLit {
-								return false
-							}
-							if r, ok := x.(*ast.ReturnStmt); ok && len(r.Results) == 2 {
-								nr++
-								t := gf.Info().TypeOf(r.Results[0])
-								c.r.Check("C20.7", gf, "value returned for a hidden field", "T: every return in the arm of hidden (and untyped) fields yields a string: GetString(\"FORM_TYPE\") in AppendHash reads it", r.Pos(), t != nil && eng.TypeStr(t) == "string", "returns a value of type "+eng.TypeStr(t)+": GetString gives \"\" and the form type drops out of the hash")
-							}
-							return true
-						})
-					}
-					if len(body) == 0 {
-						break
-					}
-					if br, ok := body[len(body)-1].(*ast.BranchStmt); !ok || br.Tok != token.FALLTHROUGH {
-						break
+				pt, _ := g.Where(rs)
+				if !g.Reachable(g.Entry(), pt, cut, nil) {
+					continue
+				}
+				inDispatch := false
+				for _, a := range g.FactsAt(pt) {
+					if strings.Contains(a, ".typ,") {
+						inDispatch = true
 					}
 				}
+				if !inDispatch {
+					continue
+				}
+				nr++
+				t := gf.Info().TypeOf(rs.Results[0])
+				c.r.Check("C20.7", gf, "value returned for a field of type "+strings.Trim(hid, "\""), "T: every return that is reachable for a hidden (or untyped) field yields a string: GetString(\"FORM_TYPE\") in AppendHash reads it", rs.Pos(), t != nil && eng.TypeStr(t) == "string", "returns a value of type "+eng.TypeStr(t)+": GetString gives \"\" and the form type drops out of the hash")
 			}
-			return true
-		})
+		}
 		c.r.Floor("C20.7", "returns in the hidden-field arm of Data.Get", nr, 2)
 	}
 
